@@ -20,6 +20,9 @@ from types import SimpleNamespace
 from typing import Any, Callable
 
 
+_TYPE_BUILTINS = {"list": list, "tuple": tuple, "int": int, "float": float, "bool": bool, "str": str, "dict": dict, "set": set, "frozenset": frozenset}
+
+
 class Unsupported(Exception):
     pass
 
@@ -70,6 +73,8 @@ class Interp:
                 return self.env[e.id]
             if e.id == "Sequence":
                 return Sequence
+            if e.id in _TYPE_BUILTINS:  # classes usable as the second argument of isinstance
+                return _TYPE_BUILTINS[e.id]
             if e.id in ("True", "False", "None"):
                 return {"True": True, "False": False, "None": None}[e.id]
             if self.resolve_name is not None:
@@ -124,7 +129,8 @@ class Interp:
                     if not fn(left, right):
                         return False
                 except TypeError as ex:
-                    raise Unsupported(f"comparison {ast.unparse(e)} on {left!r},{right!r}") from ex
+                    # both operands are concrete values of the case: Python itself raises TypeError here
+                    raise Raised("TypeError", e) from ex
                 left = right
             return True
         if isinstance(e, ast.BinOp):
